@@ -5,6 +5,7 @@ import AnySyncModel.Driver.OCache
 import AnySyncModel.Driver.Deletion
 import AnySyncModel.Driver.Tree
 import AnySyncModel.Driver.Sync
+import AnySyncModel.Driver.PubSub
 /-!
 `modeld <area>`: reads one operation per line on stdin, prints exactly one line per operation.
 Stateless areas expose `step : String → String`; stateful areas expose
@@ -38,4 +39,5 @@ def main (args : List String) : IO UInt32 := do
   | ["deletion"] => loopState stdin stdout Driver.Deletion.step Driver.Deletion.init; return 0
   | ["tree"] => loopPure stdin stdout Driver.Tree.step; return 0
   | ["sync"] => loopState stdin stdout Driver.Sync.step none; return 0
+  | ["pubsub"] => loopState stdin stdout Driver.PubSub.step Driver.PubSub.init; return 0
   | _ => IO.eprintln s!"modeld: unknown area {args}"; return 2
